@@ -436,18 +436,21 @@ fn raw_block<const L: usize>(content: &[u8; L]) -> [u8; 128] {
 #[kani::stub(core::str::validations::run_utf8_validation, ascii_utf8_validation)]
 #[kani::stub(core::slice::memchr::memchr_aligned, naive_memchr)]
 #[kani::stub(core::slice::memchr::memrchr, naive_memrchr)]
+#[kani::stub(crate::common_file_operations::read_string, model_read_string)]
 fn c03_apply_add_file_overwrite_at_3() { apply_add_file(true, 3); }
 #[kani::proof]
 #[kani::unwind(170)]
 #[kani::stub(core::str::validations::run_utf8_validation, ascii_utf8_validation)]
 #[kani::stub(core::slice::memchr::memchr_aligned, naive_memchr)]
 #[kani::stub(core::slice::memchr::memrchr, naive_memrchr)]
+#[kani::stub(crate::common_file_operations::read_string, model_read_string)]
 fn c03_apply_add_file_replace_at_0() { apply_add_file(true, 0); }
 #[kani::proof]
 #[kani::unwind(170)]
 #[kani::stub(core::str::validations::run_utf8_validation, ascii_utf8_validation)]
 #[kani::stub(core::slice::memchr::memchr_aligned, naive_memchr)]
 #[kani::stub(core::slice::memchr::memrchr, naive_memrchr)]
+#[kani::stub(crate::common_file_operations::read_string, model_read_string)]
 fn c03_apply_add_file_new_at_16() { apply_add_file(false, 16); }
 fn apply_add_file(existed: bool, offset: u64) {
     memfs::reset();
@@ -497,12 +500,14 @@ fn apply_add_file(existed: bool, offset: u64) {
 #[kani::stub(core::str::validations::run_utf8_validation, ascii_utf8_validation)]
 #[kani::stub(core::slice::memchr::memchr_aligned, naive_memchr)]
 #[kani::stub(core::slice::memchr::memrchr, naive_memrchr)]
+#[kani::stub(crate::common_file_operations::read_string, model_read_string)]
 fn c03_apply_delete_file() { apply_delete_file_or_mkdir(false); }
 #[kani::proof]
 #[kani::unwind(160)]
 #[kani::stub(core::str::validations::run_utf8_validation, ascii_utf8_validation)]
 #[kani::stub(core::slice::memchr::memchr_aligned, naive_memchr)]
 #[kani::stub(core::slice::memchr::memrchr, naive_memrchr)]
+#[kani::stub(crate::common_file_operations::read_string, model_read_string)]
 fn c03_apply_make_dir_tree() { apply_delete_file_or_mkdir(true); }
 fn apply_delete_file_or_mkdir(mkdir: bool) {
     memfs::reset();
@@ -656,6 +661,30 @@ fn next_file_op(c: &mut Cursor<&[u8]>) -> Option<(u8, u64)> {
         _ => panic!("create emits SQPK chunks only"),
     }
 }
+/// `write_string` / `get_string_len` for strings without an interior NUL: the bytes followed by one NUL (decided for the real
+/// functions by c17_write_string_plain).  The real ones go through `CString::new(..).unwrap()`, a `Result<CString, NulError>`
+/// with rustc's multi-variant niche layout: the length of everything written after it stops being a constant (R11).
+fn model_write_string(s: &String) -> Vec<u8> {
+    let b = s.as_bytes();
+    let mut v = Vec::with_capacity(b.len() + 1);
+    let mut i = 0;
+    while i < b.len() { assert!(b[i] != 0); v.push(b[i]); i += 1; }
+    v.push(0);
+    v
+}
+fn model_get_string_len(s: &String) -> usize { s.len() + 1 }
+/// `read_string` for ASCII bytes: the text with the NUL bytes at both ends removed (decided for the real function by
+/// c17_read_string_ascii).  The real one goes through `String::from_utf8(..).unwrap()`, again a multi-variant niche Result.
+fn model_read_string(v: Vec<u8>) -> String {
+    let mut start = 0;
+    while start < v.len() && v[start] == 0 { start += 1; }
+    let mut end = v.len();
+    while end > start && v[end - 1] == 0 { end -= 1; }
+    let mut out: Vec<u8> = Vec::with_capacity(end - start);
+    let mut i = start;
+    while i < end { assert!(v[i] < 0x80); out.push(v[i]); i += 1; }
+    unsafe { String::from_utf8_unchecked(out) }
+}
 /// model of `Path::strip_prefix` for the normalised paths `create` builds (no `.` / `..` / repeated separators): the
 /// remainder behind `base` and one separator.  std's version walks both paths with its component parser, whose
 /// result slice has an if-then-else length under symbolic execution even for concrete paths.
@@ -720,6 +749,9 @@ fn create_case(in_base: bool, in_new: bool) {
 #[kani::stub(core::slice::memchr::memchr_aligned, naive_memchr)]
 #[kani::stub(core::slice::memchr::memrchr, naive_memrchr)]
 #[kani::stub(std::path::Path::_strip_prefix, naive_strip_prefix)]
+#[kani::stub(crate::common_file_operations::write_string, model_write_string)]
+#[kani::stub(crate::common_file_operations::get_string_len, model_get_string_len)]
+#[kani::stub(crate::common_file_operations::read_string, model_read_string)]
 fn c04_create_file_only_in_new() { create_case(false, true); }
 #[kani::proof]
 #[kani::unwind(70)]
@@ -727,6 +759,9 @@ fn c04_create_file_only_in_new() { create_case(false, true); }
 #[kani::stub(core::slice::memchr::memchr_aligned, naive_memchr)]
 #[kani::stub(core::slice::memchr::memrchr, naive_memrchr)]
 #[kani::stub(std::path::Path::_strip_prefix, naive_strip_prefix)]
+#[kani::stub(crate::common_file_operations::write_string, model_write_string)]
+#[kani::stub(crate::common_file_operations::get_string_len, model_get_string_len)]
+#[kani::stub(crate::common_file_operations::read_string, model_read_string)]
 fn c04_create_file_only_in_old() { create_case(true, false); }
 #[kani::proof]
 #[kani::unwind(70)]
@@ -734,6 +769,9 @@ fn c04_create_file_only_in_old() { create_case(true, false); }
 #[kani::stub(core::slice::memchr::memchr_aligned, naive_memchr)]
 #[kani::stub(core::slice::memchr::memrchr, naive_memrchr)]
 #[kani::stub(std::path::Path::_strip_prefix, naive_strip_prefix)]
+#[kani::stub(crate::common_file_operations::write_string, model_write_string)]
+#[kani::stub(crate::common_file_operations::get_string_len, model_get_string_len)]
+#[kani::stub(crate::common_file_operations::read_string, model_read_string)]
 fn c04_create_file_in_both() { create_case(true, true); }
 /// the new tree is an empty directory: the only file of the old tree is deleted by the patch
 #[kani::proof]
@@ -742,6 +780,9 @@ fn c04_create_file_in_both() { create_case(true, true); }
 #[kani::stub(core::slice::memchr::memchr_aligned, naive_memchr)]
 #[kani::stub(core::slice::memchr::memrchr, naive_memrchr)]
 #[kani::stub(std::path::Path::_strip_prefix, naive_strip_prefix)]
+#[kani::stub(crate::common_file_operations::write_string, model_write_string)]
+#[kani::stub(crate::common_file_operations::get_string_len, model_get_string_len)]
+#[kani::stub(crate::common_file_operations::read_string, model_read_string)]
 fn c04_create_new_tree_empty() {
     memfs::reset();
     let old: [u8; 3] = kani::any();
